@@ -300,7 +300,9 @@ def check_view(box, ref, bad=None):
         except Exception as e:  # noqa
             bad.chk(False, "listing-raises", f"listing of {gp} raised {type(e).__name__}: {e}")
             continue
-        for name in ("keys", "iter", "values", "visit"):
+        for name in ("keys", "iter", "values", "visit", "reversed"):
+            if got.get(name) is None:
+                continue
             lk = [x for x in got[name] if L.has_reserved_segment(x)]
             bad.chk(not lk, f"leak-{name}", lambda: f"{name}() of {gp} exposes {lk[:3]}")
         lk = [x for x in got["items"] if L.has_reserved_segment(x[0]) or L.has_reserved_segment(x[1])]
